@@ -255,7 +255,54 @@ func run(r *report.Run, cc *sim.ChainCase) *report.Failure {
 			r.Class("discarded_other_property(C01)")
 			return nil
 		}
+		if f := secondBlockSameSlot(r, l, sb, fork, slot); f != nil {
+			return f
+		}
 	}
+	return nil
+}
+
+// secondBlockSameSlot: the block-level entry points (PostSlotTransition, state.ProcessBlock — the library's
+// process_block) are offered, on the post-state of a block, a second block for the SAME slot that builds on it
+// (parent root = root of the latest block header as it stands, proposer unchanged). process_block_header refuses
+// it ("block.slot > state.latest_block_header.slot"); inside state_transition the rule is shadowed by process_slots.
+func secondBlockSameSlot(r *report.Run, l *sim.Lock, sb *refspec.SignedBlock, fork string, slot uint64) *report.Failure {
+	b2 := *sb
+	b2.Message.ParentRoot = l.Sp.HeaderRoot(&l.St.LatestBlockHeader)
+	ref := l.St.Copy()
+	refErr := l.Sp.ProcessBlockOnly(ref, &b2.Message)
+	if refErr == nil {
+		r.Note("second block for the same slot: the reference accepts it?")
+		return nil
+	}
+	env, err := l.Envelope(&b2)
+	if err != nil {
+		return nil
+	}
+	for _, via := range []string{"PostSlotTransition", "ProcessBlock"} {
+		cp, cerr := l.Lib.BeaconState.CopyState()
+		if cerr != nil {
+			return nil
+		}
+		s := zb.Upgradeable(cp)
+		epc := l.Epc.Clone()
+		e, p := sim.Guard(func() error {
+			if via == "ProcessBlock" {
+				return s.ProcessBlock(context.Background(), l.LibSpec, epc, env)
+			}
+			return common.PostSlotTransition(context.Background(), l.LibSpec, epc, s, env, false)
+		})
+		r.Eval(1)
+		if p {
+			return report.Failf("panic:HDR-SECOND-BLOCK-SAME-SLOT", "%s block at slot %d, a second block for the same slot through %s: panic: %v", fork, slot, via, e)
+		}
+		if e == nil {
+			return report.Failf("accepted-invalid-body:HDR-SECOND-BLOCK-SAME-SLOT", "%s: on the post-state of the block of slot %d, %s accepts a second block for the same slot that builds on it; process_block_header says: %v", fork, slot, via, refErr)
+		}
+	}
+	r.Class("mutation-rejected-by-reference:HDR-SECOND-BLOCK-SAME-SLOT")
+	r.Hit("second-block-same-slot")
+	r.NonTrivial(fork + "|HDR-SECOND-BLOCK-SAME-SLOT")
 	return nil
 }
 
@@ -399,7 +446,7 @@ func TestCheck(t *testing.T) {
 	if r.Replay != "" {
 		return
 	}
-	r.Mandatory("struct-over-limit", "too-young-exit-of-queued-validator", "family:HDR", "family:SIG", "family:RANDAO", "family:ATT", "family:ASL", "family:PSL", "family:DEP", "family:EXIT", "family:BLSCH", "family:SYNC", "family:PAY", "bytes:decodable-corruption", "bytes:differential-judged", "benign-mutation-accepted")
+	r.Mandatory("second-block-same-slot", "struct-over-limit", "too-young-exit-of-queued-validator", "family:HDR", "family:SIG", "family:RANDAO", "family:ATT", "family:ASL", "family:PSL", "family:DEP", "family:EXIT", "family:BLSCH", "family:SYNC", "family:PAY", "bytes:decodable-corruption", "bytes:differential-judged", "benign-mutation-accepted")
 	// ---- tour: validators that went through the activation queue, then mutations that depend on their age
 	nt := 2
 	if r.Thorough() {
